@@ -452,7 +452,7 @@ func runJBufInt(t *testing.T, ops []string, o *Out) {
 	if err != nil {
 		t.Fatal(err)
 	}
-	ri, _ := ic.(*jitterbuffer.ReceiverInterceptor)
+	ri := o.Wrap(ic) // the case's ambient: a chain (with or without transparent neighbours), see ambient_test.go
 	var cur []byte
 	var curErr error
 	upstream := interceptor.RTPReaderFunc(func(b []byte, a interceptor.Attributes) (int, interceptor.Attributes, error) {
@@ -463,7 +463,7 @@ func runJBufInt(t *testing.T, ops []string, o *Out) {
 		for i := n; i < len(b); i++ {
 			b[i] = 0xAA // stale bytes after n in the scratch buffer
 		}
-		return n, a, nil
+		return n, o.Bottom(a), nil
 	})
 	reader := ri.BindRemoteStream(&interceptor.StreamInfo{SSRC: 1}, upstream)
 	for _, op := range ops {
@@ -506,7 +506,7 @@ func runJBufInt(t *testing.T, ops []string, o *Out) {
 				for i := range b {
 					b[i] = 0xEE
 				}
-				nn, _, err := reader.Read(b, interceptor.Attributes{})
+				nn, _, err := reader.Read(b, o.Attrs(interceptor.Attributes{}))
 				pk := "-"
 				if err == nil {
 					if nn < 0 || nn > len(b) {
@@ -543,7 +543,7 @@ func runJBufInt(t *testing.T, ops []string, o *Out) {
 					binary.BigEndian.PutUint32(full[12:], uint32(obj+i))
 					cur = full
 					curErr = nil
-					nn, _, err := reader.Read(b, interceptor.Attributes{})
+					nn, _, err := reader.Read(b, o.Attrs(interceptor.Attributes{}))
 					if err == nil {
 						delivered++
 					}
@@ -562,7 +562,7 @@ func runJBufInt(t *testing.T, ops []string, o *Out) {
 			default:
 				return
 			}
-			lines = append(lines, c18State(ri.VerifBuffer()))
+			lines = append(lines, c18State(ic.(*jitterbuffer.ReceiverInterceptor).VerifBuffer()))
 		})
 		switch st {
 		case c18Hang:
@@ -1162,6 +1162,10 @@ func init() {
 		Gen: genJBuf,
 		Run: runJBuf,
 	})
+	// (ambient: in a third of the well-formed cases the interceptor sits in a chain, alone or next to a NoOp; the
+	// jitter buffer's observable behaviour must not change.  Real neighbours are not used here: a transparent wrapper
+	// returns n=0 with an error, while the jitter buffer reports the bytes it buffered together with
+	// ErrPopWhileBuffering, and this component prints n.)
 	register("jbufint", &Comp{
 		N: func(tier string) int {
 			if tier == "thorough" {
@@ -1169,7 +1173,13 @@ func init() {
 			}
 			return 1000
 		},
-		Gen: genJBufInt,
+		Gen: func(r *Rng, tier string, idx int) Case {
+			cs := genJBufInt(r, tier, idx)
+			if !strings.Contains(cs.Class, "malformed") && !strings.Contains(cs.Class, "err") && r.Chance(1, 3) {
+				cs.Ops = append([]string{ambOp(c05PickS(r, "", "noop"), c05PickS(r, "", "", "noop"), true, false, r.Chance(1, 3), true)}, cs.Ops...)
+			}
+			return cs
+		},
 		Run: runJBufInt,
 	})
 }
